@@ -157,7 +157,67 @@ def run(ctx):
                     ctx.fail('`in` disagrees with name resolution', case, {'in': q in cont, 'find': exp})
             if any(g != exp for g in got):
                 ctx.fail('Chain[...] / input_tasks[...] resolve differently from _find_task_full_name', case, {'got': got, 'find': exp})
+    run_class_names(ctx)
     run_dependants(ctx)
+
+
+FRAGS = ['Export', 'Task', 'List', 'Data', 'X', 'AB', 'Train', 'Model', 'Tasks', 'task', 'V2', 'Http', 'T']
+
+
+def run_class_names(ctx):
+    """the name a task is addressed by when its class gives none: derived from the class name (real `MetaTask.slugname` of real
+    classes vs the Lean model `Names.classTaskName`); oracle: classes whose names differ otherwise than by a trailing `Task` are
+    different tasks, and a chain declaring both holds both"""
+    from taskchain import Task, Config
+    rng = ctx.rng('class-names')
+    n = ctx.n(150, 1500)
+    names = []
+    for _ in range(n):
+        k = rng.randint(1, 4)
+        nm = ''.join(rng.choice(FRAGS) for _ in range(k))
+        if not nm[0].isupper():
+            nm = 'K' + nm
+        if rng.random() < 0.15:
+            nm += 'Task'
+        names.append(nm)
+    names = sorted(set(names))
+    outs = ctx.model.many([{'m': 'names', 'op': 'class_name', 'cls': nm} for nm in names])
+    classes, slug = {}, {}
+    for nm, mo in zip(names, outs):
+        cls = type(nm, (Task,), {'run': _run_int, '__module__': 'tcv_c10_classnames'})
+        classes[nm] = cls
+        slug[nm] = cls.slugname
+        case = {'class': nm}
+        ctx.case(case, nontrivial='Task' in nm[:-4] or '_' in slug[nm])
+        ctx.count('class-name')
+        if slug[nm] != mo.get('name'):
+            ctx.diverge('class_task_name', case, slug[nm], mo)
+    by_slug = {}
+    for nm in names:
+        by_slug.setdefault(slug[nm], []).append(nm)
+    for sl, group in by_slug.items():
+        base = {g[:-4] if g.endswith('Task') and len(g) > 4 else g for g in group}
+        if len(base) > 1:
+            ctx.fail('two classes whose names differ otherwise than by a trailing `Task` get the same task name', {'classes': group}, {'task name': sl})
+    # through a real chain: every declared class is a task of the chain, under its own name
+    root = ctx.tmpdir() / 'classnames'
+    for i in range(ctx.n(20, 200)):
+        pick = rng.sample(names, min(len(names), rng.randint(2, 5)))
+        distinct = {}
+        for nm in pick:
+            distinct.setdefault(nm[:-4] if nm.endswith('Task') and len(nm) > 4 else nm, nm)
+        pick = sorted(distinct.values())
+        try:
+            chain = Config(root / f'd{i}', name='c', data={'tasks': [classes[nm] for nm in pick]}).chain()
+        except Exception as e:      # noqa
+            ctx.fail('a chain of classes with different names cannot be built', {'classes': pick}, f'{type(e).__name__}: {e}'[:200]); continue
+        ctx.case({'classes': pick, 'via': 'chain'}); ctx.count('class-name:chain')
+        if len(chain.tasks) != len(pick):
+            ctx.fail('a chain lost a declared task: two classes were given one task name', {'classes': pick}, {'tasks': list(chain.tasks)})
+
+
+def _run_int(self) -> int:
+    return 1
 
 
 def run_dependants(ctx):
